@@ -573,7 +573,7 @@ Qed.
 Definition out_rel (o1 o2 : outcome) : Prop :=
   match o1, o2 with
   | OVal v1, OVal v2 => vrel v1 v2
-  | OErr t1, OErr t2 => t1 = t2 \/ t1 = None \/ t2 = None
+  | OErr t1, OErr t2 => t1 = t2
   | OSkip, OSkip => True
   | _, _ => False
   end.
@@ -614,3 +614,72 @@ Qed.
 
 Print Assumptions C01_from_ast_lemma.
 Print Assumptions call_frame_independent_lemma.
+
+(* ---------- what Generate accepts is well-formed ---------- *)
+
+Lemma wf_unreserved a am cm k : wf (am ++ repeat None k) cm a -> wf am cm a.
+Proof. apply wf_equiv. intros; apply in_reserved. Qed.
+
+Lemma resolvable_idx am cm n :
+  match index_of oname_eqb (Some n) am with
+  | Some _ => true
+  | None => match index_of str_eqb n cm with Some _ => true | None => false end
+  end = true -> In (Some n) am \/ In n cm.
+Proof.
+  destruct (index_of oname_eqb (Some n) am) eqn:E1.
+  - intros _. left. eapply index_of_oeqb_some_in; eauto.
+  - destruct (index_of str_eqb n cm) eqn:E2; [|discriminate].
+    intros _. right. eapply index_of_str_some_in; eauto.
+Qed.
+
+Theorem gen_check_wf_lemma : forall f a am cm,
+  gen_check f am cm a = true -> side_ok a = true -> wf am cm a.
+Proof.
+  induction f as [|f IH]; intros a am cm G K; [discriminate|].
+  destruct a as [v|x|x v b|c t e|v cases d|t c|op x|op x y|ps body outer recursive this|l|l i|m|m key
+                |fn args|fname args|recv mname args]; cbn [gen_check side_ok wf] in *.
+  - apply fo_cwf; auto.
+  - apply resolvable_idx; auto.
+  - bsplit G. bsplit K. split; [eauto|]. split; [|eauto].
+    intros Hin. destruct (index_of_oeqb_in _ _ Hin) as [i Hi]. rewrite Hi in B0. discriminate.
+  - bsplit G. bsplit K. repeat split; eauto.
+  - bsplit G. bsplit K. split; [eauto|]. split; [eauto|].
+    clear G B0 K B2. induction cases as [|[cc cr] cases IHc]; cbn in *; auto.
+    bsplit B. bsplit B1. repeat split; eauto.
+  - bsplit G. bsplit K. repeat split; eauto.
+  - eauto.
+  - bsplit G. bsplit K. repeat split; eauto.
+  - bsplit G. bsplit K. split; [|split].
+    + intros n Hn. rewrite forallb_forall in B0. apply resolvable_idx. auto.
+    + intros Hne. destruct this as [|c this']; [tauto|]. apply mem_name_false.
+      destruct (mem_name (c :: this') outer); auto; discriminate.
+    + apply (IH body); auto.
+      destruct recursive; cbn [self_of names_self] in *; auto.
+      destruct this as [|c this']; auto.
+      rewrite orb_true_r in G. discriminate.
+  - induction l as [|x l IHl]; cbn in *; auto. bsplit G. bsplit K. split; eauto.
+  - bsplit G. bsplit K. repeat split; eauto.
+  - induction m as [|[k x] m IHm]; cbn in *; auto. bsplit G. bsplit K. split; eauto.
+  - eauto.
+  - bsplit G. bsplit K. split; [eauto|]. clear G K.
+    revert B B0. generalize 0 at 1. induction args as [|x args IHa]; intros k B B0; cbn in *; auto.
+    bsplit B. bsplit B0. split; [eapply wf_unreserved; eauto|eauto].
+  - bsplit G. clear G.
+    revert B K. generalize 0 at 1. induction args as [|x args IHa]; intros k B B0; cbn in *; auto.
+    bsplit B. bsplit B0. split; [eapply wf_unreserved; eauto|eauto].
+  - bsplit G. bsplit K. split; [eauto|]. clear G K.
+    revert B B0. generalize 1 at 1. induction args as [|x args IHa]; intros k B B0; cbn in *; auto.
+    bsplit B. bsplit B0. split; [eapply wf_unreserved; eauto|eauto].
+Qed.
+
+Print Assumptions gen_check_wf_lemma.
+
+(* Generate accepts the program + the two side conditions Generate does not look at: no wf needed *)
+Theorem C01_generated_lemma : forall known fuel a argnames args1 args2,
+  gen_check (S (ast_size a)) (map Some argnames) [] a = true -> side_ok a = true ->
+  Forall2 vrel args1 args2 -> length args2 = length argnames ->
+  orel (eval known fuel (combine argnames args1) a) (run known fuel a argnames args2).
+Proof.
+  intros known fuel a argnames args1 args2 G K. apply C01_from_ast_lemma; auto.
+  eapply gen_check_wf_lemma; eauto.
+Qed.
